@@ -88,8 +88,45 @@ def check(ctx):
     if bad:
         ppx.report(ctx, "C04", "conditional compilation keeps the wrong text", bad[0], bad[1])
     ppx.scenario_batch(ctx, "C04", 80 if q else 1500, "c04sc")
+    caller_keys(ctx)
     ppx.known_finding_replay(ctx, "C04", "D4-elsif-predefined", ppx.PC({"top.sv": D4_WITNESS}),
                              lambda rr: rr.ok and b"B" in (rr.text or b""))
+
+
+def caller_keys(ctx):
+    """a name counts as defined when the CALLER supplied it: what counts is the key of the caller's table, whatever the
+    Define stored under it calls itself"""
+    top = ("`ifdef FAST\nfast_yes\n`else\nfast_no\n`endif\n`ifdef ALIAS\nalias_leak\n`endif\n`ifndef EMPTYKEY\nempty_missing\n`endif\n"
+           "`include \"inc.svh\"\n`ifdef FAST\nstill_fast\n`endif\n")
+    inc = "`ifdef FAST\ninc_fast\n`elsif ALIAS\ninc_alias\n`endif\n"
+    cases = []
+    for entry in ("preprocess", "preprocess_str"):
+        c = Case("ck_" + entry).add("file", hx("top.sv"), hx(top)).add("file", hx("inc.svh"), hx(inc))
+        c.add("definealias", hx("FAST"), hx("ALIAS"), "def", 0, hx("1"))
+        c.add("definealias", hx("EMPTYKEY"), hx(""), "def", 0, hx("2"))
+        c.add("opt", "strip", 0).add("opt", "ignore", 0).add("want", "text")
+        if entry == "preprocess":
+            c.add("run", "preprocess", hx("top.sv"))
+        else:
+            c.add("run", "preprocess_str", hx(top), hx("top.sv"), 0, 0)
+        cases.append(c)
+    impl = run_harness("api", cases, "c04ck")
+    bad = None
+    want = ["fast_yes", "inc_fast", "still_fast"]
+    for c in cases:
+        lines = impl.get(c.id) or []
+        ctx.corr_cases += 1
+        tx = [l for l in lines if l.startswith("text ")]
+        if crashed(lines) or not tx:
+            bad = bad or (c, "no output: %s" % lines[:3]); continue
+        got = unhx(tx[0].split()[1]).decode("utf-8", "replace").split()
+        ctx.corr_nontrivial.add(sha(c.text()))
+        if got != want:
+            bad = bad or (c, "the caller supplied FAST (a Define that calls itself ALIAS) and EMPTYKEY: surviving tokens %s, expected %s" % (got, want))
+    ctx.obl("search-oracle:names the caller supplied are defined under the KEY of the caller's table", "oracle", bad is None, bad[1] if bad else "")
+    if bad:
+        rp = write_replay(ctx, "keys-" + sha(bad[0].text())[:8], {"property": "C04", "kind": "caller-keys", "case": bad[0].text(), "why": bad[1]})
+        ctx.viol.append(Violation("conditional compilation keeps the wrong text: " + bad[1], rp))
 
 
 def replay(ctx, path):
